@@ -1078,3 +1078,49 @@ Proof.
   destruct (needs_ip tr socks && negb (is_ip (ep_host (eff_ep e dial)))); [discriminate|].
   injection Hn as <-. cbn in Hh, Hpt. auto.
 Qed.
+
+(** ** Every dial site of an upstream uses the one target *)
+
+Lemma dial_sites_same t site :
+  In site (dial_sites t) -> snd (fst site) = t_host t /\ snd site = t_port t.
+Proof.
+  unfold dial_sites. destruct (t_transport t); cbn [In]; intros H;
+    repeat (destruct H as [<-|H]; [split; reflexivity|]); contradiction.
+Qed.
+
+Lemma udp_two_sites t :
+  t_transport t = TUdp ->
+  dial_sites t = [(NetUdp, t_host t, t_port t); (NetTcp, t_host t, t_port t)].
+Proof. unfold dial_sites. intros ->. reflexivity. Qed.
+
+(** on the grammar: the UDP socket and the TCP retry of the udp upstream (scheme
+    udp or none) both go to the configured host and port *)
+Lemma udp_sites_configured is_ip nm def e path dial socks t :
+  In (nm, TUdp, def) scheme_table ->
+  wf_ep e = true -> url_ok_ep e = true -> wf_path path = true -> dial_wf dial = true ->
+  new_upstream is_ip (lit nm ++ lit "://" ++ render_ep e ++ path) (render_dial dial) socks = Some t ->
+  let h := ep_host (eff_ep e dial) in
+  let p := port_or (ep_port (eff_ep e dial)) def in
+  dial_sites t = [(NetUdp, h, p); (NetTcp, h, p)].
+Proof.
+  intros Hin He Hu Hp Hd H.
+  rewrite (dial_target is_ip nm TUdp def e path dial socks Hin He Hu Hp Hd) in H.
+  unfold expected_target in H.
+  destruct (needs_ip TUdp socks && negb (is_ip (ep_host (eff_ep e dial)))); [discriminate|].
+  injection H as <-. reflexivity.
+Qed.
+
+Lemma udp_sites_configured_no_scheme is_ip e path dial socks t :
+  wf_ep e = true -> url_ok_ep e = true -> wf_path path = true -> dial_wf dial = true ->
+  contains (lit "://") (render_ep e ++ path) = false ->
+  new_upstream is_ip (render_ep e ++ path) (render_dial dial) socks = Some t ->
+  let h := ep_host (eff_ep e dial) in
+  let p := port_or (ep_port (eff_ep e dial)) 53 in
+  dial_sites t = [(NetUdp, h, p); (NetTcp, h, p)].
+Proof.
+  intros He Hu Hp Hd Hc H.
+  rewrite (dial_target_no_scheme is_ip e path dial socks He Hu Hp Hd Hc) in H.
+  unfold expected_target in H.
+  destruct (needs_ip TUdp socks && negb (is_ip (ep_host (eff_ep e dial)))); [discriminate|].
+  injection H as <-. reflexivity.
+Qed.
